@@ -13,10 +13,10 @@ import (
 
 // HistObs is what one event of a sequential history produced on one handler.
 type HistObs struct {
-	Now  int64 `json:"now"`  // time.Now().Unix() just before the event
-	Resp Resp  `json:"resp"` // query events
-	Rel  string `json:"rel"` // reload events: ok / nokey / timeout / err
-	Exp  int   `json:"exp"`  // 1 = DNS_cache.expired counted during this event
+	Now  int64  `json:"now"`  // time.Now().Unix() just before the event
+	Resp Resp   `json:"resp"` // query events
+	Rel  string `json:"rel"`  // reload events: ok / nokey / timeout / err
+	Exp  int    `json:"exp"`  // 1 = DNS_cache.expired counted during this event
 }
 
 // RunHist feeds the events (threads, in order, no interleaving) to one handler.
